@@ -228,6 +228,35 @@ def broadcast(rng, tier):
                     if tuple(rt.shape) != want: fails.append(dict(clause='unary_shape', signature=f'{gname}.{oname} {s1}', got=list(rt.shape), want=list(want)))
             if len(fails) > 10: break
         if len(fails) > 10: break
+    # batches that MIX value regimes (identity, tiny and near-pi rotations, exactly pi, gimbal-lock pitch, unit and non-unit scale, generic):
+    # every unary op on the batch equals the op item by item - a data-dependent branch taken for the whole batch (any()/all() slips)
+    # would show here and nowhere in uniform random batches
+    import math
+    def quat(axis, ang):
+        ax = torch.tensor(axis, dtype=d); ax = ax / ax.norm()
+        return torch.cat([ax * math.sin(ang / 2), torch.tensor([math.cos(ang / 2)], dtype=d)])
+    lock = pp.euler2SO3(torch.tensor([0.3, math.pi / 2 - 1e-5, 0.5], dtype=d)).tensor()
+    quats = [torch.tensor([0., 0, 0, 1], dtype=d), quat([1., 2, 3], 1e-9), quat([1., -1, 0.5], math.pi - 1e-9), torch.tensor([0.6, 0.0, 0.8, 0.0], dtype=d),
+             quat([0.2, 1, -1], 1.3), lock, quat([0., 1, 0], -(math.pi / 2 - 1e-6)), quat([3., 1, 2], 2.9)]
+    nq = len(quats)
+    trans = torch.randn(nq, 3, dtype=d); scal = torch.tensor([1.0, 1.0, 2.5, 1.0, 0.3, 1.0, 1.7, 1.0], dtype=d).unsqueeze(-1)
+    Q4 = torch.stack(quats, 0)
+    mixed = {'SO3': pp.SO3(Q4), 'SE3': pp.SE3(torch.cat([trans, Q4], -1)), 'RxSO3': pp.RxSO3(torch.cat([Q4, scal], -1)), 'Sim3': pp.Sim3(torch.cat([trans, Q4, scal], -1))}
+    for gname, X in mixed.items():
+        unary = [('Log', lambda z: z.Log().tensor()), ('Inv', lambda z: z.Inv().tensor()), ('matrix', lambda z: z.matrix()), ('euler', lambda z: z.euler()),
+                 ('pp.euler', lambda z: pp.euler(z)), ('Log().Exp()', lambda z: z.Log().Exp().tensor()), ('rotation', lambda z: z.rotation().tensor()),
+                 ('Jinvp', lambda z: z.Jinvp(pp.LieTensor(torch.full_like(z.Log().tensor(), 0.3), ltype=z.Log().ltype)).tensor()), ('Log().Jr()', lambda z: z.Log().Jr())]
+        for oname, f in unary:
+            try:
+                r = f(X); evals += 1
+                for i in range(nq):
+                    ri = f(X[i])
+                    if not torch.allclose(r[i], ri, atol=1e-10, rtol=1e-10, equal_nan=True):
+                        fails.append(dict(clause='mixed_regime_batch_itemwise', signature=f'{gname}.{oname}', item=i, err=float((r[i] - ri).abs().max()))); break
+            except NotImplementedError:
+                continue
+            except Exception as e:
+                fails.append(dict(clause='mixed_regime_batch_raises', signature=f'{gname}.{oname}', error=f'{type(e).__name__}: {e}'[:160]))
     return dict(evaluations=evals, distinct_nontrivial=pairs, rule='all ordered pairs of lshapes from the stated set that torch can broadcast; each (group, op, pair) is one evaluation; non-trivial: every pair',
                 bound='rank <= 3, extents {0,1,2,3}' + (' (quick: rank-3 shapes thinned)' if tier == 'quick' else ''), failures=fails[:8],
                 samples=[dict(pair=[[2, 1], [3]], ops=['Mul', 'Act', 'Act4', 'Adj', 'AdjT', 'Jinvp', 'Retr'])], exhaustive=(tier != 'quick'))
